@@ -300,3 +300,121 @@ Proof.
     intros [A|[]]. apply Hj. cbn. congruence. }
   rewrite Ho. reflexivity.
 Qed.
+
+(* ---------------- histories: arbitrary sequences of writes by every path *)
+Lemma np_apply_valid : forall ps o ps', np_apply ps o = Some ps' -> validate ps' = true.
+Proof.
+  intros ps o ps' H. destruct o as [recs code v|recs code v|allowed recs new]; cbn [np_apply] in H.
+  - unfold set_code in H. destruct (pid_of_code code) as [p|]; [|discriminate].
+    exact (set_preserves_valid _ _ _ _ _ H).
+  - apply proposal_is_set in H. unfold set_code in H. destruct (pid_of_code code) as [p|]; [|discriminate].
+    exact (set_preserves_valid _ _ _ _ _ H).
+  - destruct allowed.
+    + exact (proj2 (msg_write_valid _ _ _ _ H)).
+    + rewrite msg_needs_permission in H. discriminate.
+Qed.
+
+Lemma np_step_valid : forall ps o, validate ps = true -> validate (np_step ps o) = true.
+Proof.
+  intros ps o Hv. unfold np_step. destruct (np_apply ps o) as [ps'|] eqn:E; [|exact Hv].
+  exact (np_apply_valid _ _ _ E).
+Qed.
+
+Lemma np_fold_valid : forall ops ps, validate ps = true -> validate (fold_left np_step ops ps) = true.
+Proof.
+  induction ops as [|o ops IH]; intros ps Hv; cbn [fold_left]; [exact Hv|].
+  apply IH. apply np_step_valid. exact Hv.
+Qed.
+
+Lemma np_genesis_some : forall g s, np_genesis g = Some s -> s = g /\ validate g = true.
+Proof.
+  intros g s H. unfold np_genesis in H. apply set_all_valid in H. destruct H as [-> H]. split; [reflexivity|exact H].
+Qed.
+
+Theorem np_always_valid : forall g ops s, np_run g ops = Some s -> validate s = true /\ valid_specb s = true.
+Proof.
+  intros g ops s H. unfold np_run in H. destruct (np_genesis g) as [s0|] eqn:G; cbn [option_map] in H; [|discriminate].
+  injection H as <-. apply np_genesis_some in G. destruct G as [-> Hg].
+  pose proof (np_fold_valid ops g Hg) as Hv. split; [exact Hv|exact (validate_sound _ Hv)].
+Qed.
+
+(* ... at every moment of the history, not only at its end *)
+Theorem np_prefix_valid : forall g ops1 ops2 s, np_run g (ops1 ++ ops2) = Some s ->
+  exists s1, np_run g ops1 = Some s1 /\ validate s1 = true /\ valid_specb s1 = true.
+Proof.
+  intros g ops1 ops2 s H. unfold np_run in *. destruct (np_genesis g) as [s0|] eqn:G; cbn [option_map] in *; [|discriminate].
+  exists (fold_left np_step ops1 s0). split; [reflexivity|].
+  apply np_genesis_some in G. destruct G as [-> Hg].
+  pose proof (np_fold_valid ops1 g Hg) as Hv. split; [exact Hv|exact (validate_sound _ Hv)].
+Qed.
+
+Theorem np_genesis_invalid_no_chain : forall g ops, validate g = false -> np_run g ops = None.
+Proof. intros g ops H. unfold np_run, np_genesis. rewrite (invalid_rejected g g H). reflexivity. Qed.
+
+Theorem np_rejected_unchanged : forall ps o, np_apply ps o = None -> np_step ps o = ps.
+Proof. intros ps o H. unfold np_step. rewrite H. reflexivity. Qed.
+
+Theorem np_unpermitted_unchanged : forall ps recs new, np_step ps (OpMsg false recs new) = ps.
+Proof. intros. apply np_rejected_unchanged. cbn [np_apply]. apply msg_needs_permission. Qed.
+
+(* a step that changes the record is an accepted request of a permitted sender or of a proposal,
+   and the new record is the requested one *)
+Theorem np_change_is_requested : forall ps o, np_step ps o <> ps ->
+  match o with
+  | OpMsg allowed recs new => allowed = true /\ np_step ps o = new
+  | OpSet recs code v | OpProposal recs code v => set_code recs ps code v = Some (np_step ps o)
+  end.
+Proof.
+  intros ps o Hne. unfold np_step in *. destruct (np_apply ps o) as [ps'|] eqn:E; [|congruence].
+  destruct o as [recs code v|recs code v|allowed recs new]; cbn [np_apply] in E.
+  - exact E.
+  - exact (proposal_is_set _ _ _ _ _ E).
+  - destruct allowed; [|rewrite msg_needs_permission in E; discriminate].
+    split; [reflexivity|exact (proj1 (msg_write_valid _ _ _ _ E))].
+Qed.
+
+(* the spec checker accepts every history of the model *)
+Definition is_some {A} (o : option A) : bool := match o with Some _ => true | None => false end.
+Definition model_rstep (cur : props) (o : np_op) : c19_rstep :=
+  match o with
+  | OpSet recs code v | OpProposal recs code v => RProp code v true (is_some (np_apply cur o)) (np_step cur o)
+  | OpMsg allowed recs new => RMsg allowed new (is_some (np_apply cur o)) (np_step cur o)
+  end.
+Fixpoint model_rsteps (cur : props) (ops : list np_op) : list c19_rstep :=
+  match ops with [] => [] | o :: r => model_rstep cur o :: model_rsteps (np_step cur o) r end.
+
+Lemma model_rstep_after : forall cur o, rstep_after (model_rstep cur o) = np_step cur o.
+Proof. intros cur o. destruct o; reflexivity. Qed.
+
+Lemma rstep_sound : forall cur o, rstep_clauses cur (model_rstep cur o) = [].
+Proof.
+  intros cur o. unfold np_step, model_rstep.
+  destruct o as [recs code v|recs code v|allowed recs new]; unfold np_step; cbn [rstep_clauses].
+  - cbn [np_apply]. pose proof (chk_sound_set recs cur code v) as C. cbv zeta in C.
+    destruct (set_code recs cur code v) as [a|]; cbn [is_some andb].
+    + exact C.
+    + rewrite props_eqb_refl. reflexivity.
+  - destruct (np_apply cur (OpProposal recs code v)) as [a|] eqn:E; cbn [is_some andb].
+    + cbn [np_apply] in E. apply proposal_is_set in E.
+      pose proof (chk_sound_set recs cur code v) as C. cbv zeta in C. rewrite E in C. exact C.
+    + rewrite props_eqb_refl. reflexivity.
+  - destruct (np_apply cur (OpMsg allowed recs new)) as [a|] eqn:E; cbn [is_some].
+    + cbn [np_apply] in E. destruct allowed; [|rewrite msg_needs_permission in E; discriminate].
+      destruct (msg_write_valid _ _ _ _ E) as [-> Hv].
+      rewrite (validate_sound _ Hv), props_eqb_refl. reflexivity.
+    + rewrite props_eqb_refl. reflexivity.
+Qed.
+
+Theorem chk_sound_hist : forall ops cur, rhist_clauses cur (model_rsteps cur ops) = [].
+Proof.
+  induction ops as [|o ops IH]; intros cur; cbn [model_rsteps rhist_clauses]; [reflexivity|].
+  rewrite rstep_sound, model_rstep_after. cbn [app]. apply IH.
+Qed.
+
+(* ... and the model agrees with itself step by step (the correspondence relation is not vacuous) *)
+Lemma np_example_history :
+  exists ops s, np_run example_props ops = Some s /\ s <> example_props.
+Proof.
+  exists [OpSet [] 1 (2000000, ""%string)].
+  eexists. split; [vm_compute; reflexivity|]. intro H. discriminate H.
+Qed.
